@@ -9,9 +9,14 @@
      - the GENERATOR'S INTENT, which is independent of the model's parsers: every value it put
        anywhere as a client id ([ids]) / client secret ([secrets]), the kind of code it built
        ([kind]) and the session it sealed into it ([csess]);
-     - the observation: status, provider calls, JSON fields of the body, and [o_leak]: some secret
-       marker (a token / e-mail of the sealed session, the provider's new token, a group name)
-       occurs anywhere in the response body or headers.
+     - the observation: status, provider calls, JSON fields of the body, [o_leak]: some secret
+       marker of THIS request (a token / e-mail of the sealed session, the provider's new token, a
+       group name) occurs anywhere in the response body or headers, and [o_foreign]: a secret
+       marker of ANOTHER request of the same concurrent batch occurs in it;
+     - [mode]: 0 = the request ran alone; 1 = observed while 4-16 requests were in flight at once
+       through the same handler chain (held between "response computed" and "response written");
+       2 = the same under GOMAXPROCS(1). The model and the monitor are the same per-request
+       functions in every mode: each response is judged against its own request.
    A [CVal] case is a client table given to the real Configuration.Validate and NewAuthenticator. *)
 From V Require Export Base CorrBase AuthBack.
 
@@ -50,10 +55,10 @@ Fixpoint assoc_tab (c : str) (t : list (str * (N * session))) : option (N * sess
   end.
 
 Inductive case :=
-| CReq (cfg : config) (o_valid : bool) (pre : bool) (r : request)
+| CReq (mode : N) (cfg : config) (o_valid : bool) (pre : bool) (r : request)
        (tab : list (str * (N * session))) (ref : refresh_answer) (grp : groups_answer) (valid : bool)
        (ids secrets : list str) (kind : N) (csess : option session)
-       (o_status : N) (o_calls : list pcall) (o_body : body) (o_leak : bool)
+       (o_status : N) (o_calls : list pcall) (o_body : body) (o_leak : bool) (o_foreign : bool)
 | CVal (clients : list (str * (str * str))) (o_ok : bool) (o_id o_secret : str)
 (* the client table produced by the real LoadConfig under some CLIENT_* environment *)
 | CLoad (clients : list (str * (str * str))) (o_ok : bool) (o_id o_secret : str).
@@ -94,7 +99,9 @@ Definition body_is_session (s : session) (b : body) : bool :=
   negb (is_some (b_groups b)).
 
 Definition holds_req (cfg : config) (r : request) (ids secrets : list str) (kind : N) (csess : option session)
-  (status : N) (calls : list pcall) (b : body) (leak : bool) : bool :=
+  (status : N) (calls : list pcall) (b : body) (leak : bool) (foreign : bool) : bool :=
+  (* D: nothing of another request's secrets, ever (requests in flight at once do not mix) *)
+  negb foreign &&
   (* A: without the configured id and secret: an error, nothing revealed, no provider call *)
   (entitled cfg ids secrets || (negb (effects status calls b leak) && mem_N status [401; 404; 405; 500])) &&
   (* B: /redeem gives tokens only for a genuine fresh code, then exactly that session's; any
@@ -127,7 +134,7 @@ Fixpoint has_client (n : str) (cs : list (str * (str * str))) : bool :=
 
 Definition judge (c : case) : N :=
   match c with
-  | CReq cfg o_valid pre r tab ref grp valid ids secrets kind csess o_status o_calls o_body o_leak =>
+  | CReq mode cfg o_valid pre r tab ref grp valid ids secrets kind csess o_status o_calls o_body o_leak o_foreign =>
       let e := mk_env tab ref grp valid in
       let m := serve cfg e pre r in
       let tol := if str_eqb (rq_path r) p_redeem then 10%Z else 0%Z in
@@ -136,7 +143,7 @@ Definition judge (c : case) : N :=
               body_close tol (rs_body m) o_body && bool_eqb (cfg_valid cfg) o_valid &&
               sane cfg r e ids secrets kind csess) in
       (* guard of the property: the configuration passed Validate (observed on the real code) *)
-      code mismatch (negb o_valid || holds_req cfg r ids secrets kind csess o_status o_calls o_body o_leak) 0
+      code mismatch (negb o_valid || holds_req cfg r ids secrets kind csess o_status o_calls o_body o_leak o_foreign) 0
   | CVal clients o_ok o_id o_secret =>
       let '(mid, msec) := new_authenticator_creds clients in
       let mismatch := negb (bool_eqb (clients_validate clients) o_ok && str_eqb mid o_id && str_eqb msec o_secret) in
@@ -155,14 +162,15 @@ Definition judge (c : case) : N :=
 (* classes for the evidence histogram:
    0 unknown path; otherwise endpoint*100 + outcome, +10 when the caller was served although some
    value it sent for a credential differs from the configured one (duplicates / conflicts: listed
-   for inspection), +20 behind the logging handler. 900+ = configuration cases *)
+   for inspection), +20 behind the logging handler, +1000 / +2000 for observations made with other
+   requests in flight (mode 1 / 2). 900+ = configuration cases *)
 Definition endpoint_no (p : str) : N :=
   if str_eqb p p_profile then 1 else if str_eqb p p_validate then 2
   else if str_eqb p p_redeem then 3 else if str_eqb p p_refresh then 4 else 0.
 
 Definition classify (c : case) : N :=
   match c with
-  | CReq cfg o_valid pre r tab ref grp valid ids secrets kind csess o_status o_calls o_body o_leak =>
+  | CReq mode cfg o_valid pre r tab ref grp valid ids secrets kind csess o_status o_calls o_body o_leak o_foreign =>
       let ep := endpoint_no (rq_path r) in
       if N.eqb ep 0 then 0
       else
@@ -177,7 +185,7 @@ Definition classify (c : case) : N :=
           is_some (rs_ran m) &&
           (existsb (fun v => negb (str_eqb v (cfg_id cfg))) ids ||
            existsb (fun v => negb (str_eqb v (cfg_secret cfg))) secrets) in
-        ep * 100 + outcome + (if conflict then 10 else 0) + (if pre then 20 else 0)
+        ep * 100 + outcome + (if conflict then 10 else 0) + (if pre then 20 else 0) + 1000 * mode
   | CVal clients o_ok _ _ => 900 + (if o_ok then 1 else 0) + (if has_client proxy_name clients then 2 else 0)
   | CLoad clients o_ok _ _ => 910 + (if o_ok then 1 else 0) + (if has_client proxy_name clients then 2 else 0)
   end.
